@@ -117,3 +117,79 @@ class EncodeCtx(Contract):
 
 
 UNITS = [EncodeCtx()]
+
+
+# ---- the public entry point: RTFDocument.rtf_encode -> RTFEncodingEngine.encode_document -> UnifiedRTFEncoder.encode ----------------
+ENCODED = z3.Function("unified_encoder_result_for", z3.IntSort(), StrSort)        # document id -> what UnifiedRTFEncoder.encode returns
+
+
+class RtfEncodeEntry(Contract):
+    """RTFDocument.rtf_encode(): exactly the string the encoding engine returns for THIS document, from an engine created for this call
+    (nothing is kept between calls: C14 / C15; write_rtf stores this string: C18)."""
+    target = "encode.py::RTFDocument.rtf_encode"
+    serves = ["C14", "C15", "C18"]
+    models = [StrModel()]
+
+    def setup(self, c):
+        me = c.alloc(RecObj("RTFDocument", {}, pyclass=c.cls("rtflite.encode", "RTFDocument"), fresh=False, origin="CALLER"))
+        c.bind("self", me)
+        c.v.update(me=me)
+        c.ghost("engines", 0)
+        c.ghost("encoded", ())
+        self._v = c.v
+
+    @property
+    def handlers(self):
+        def new_engine(I, st, cv, args, kwargs, node):
+            st.ghost["engines"] = st.ghost.get("engines", 0) + 1
+            return st.alloc(RecObj("RTFEncodingEngine", {}, pyclass=cv.pyclass, fresh=True))
+        return {"new:RTFEncodingEngine": new_engine}
+
+    @property
+    def summaries(self):
+        def encode_document(I, st, args, kwargs, node):
+            site = getattr(node, "lineno", None)
+            doc = args[1]
+            I.oblige(st, f"C14.the_engine_encodes_this_document@L{site}", z3.BoolVal(isinstance(doc, Ref) and doc.oid == self._v["me"].oid), "post", site)
+            I.oblige(st, f"C15.the_engine_was_created_for_this_call@L{site}", z3.BoolVal(isinstance(args[0], Ref) and st.obj(args[0]).fresh), "post", site)
+            st.ghost["encoded"] = tuple(st.ghost.get("encoded", ())) + (doc.oid if isinstance(doc, Ref) else None,)
+            return ENCODED(z3.IntVal(doc.oid if isinstance(doc, Ref) else -1))
+        return {"RTFEncodingEngine.encode_document": encode_document}
+
+    def ensures(self, c, out):
+        me = c.v["me"]
+        return {"C18.returns_exactly_the_engines_string_for_this_document": to_z3(norm_str(out.value)) == ENCODED(z3.IntVal(me.oid)),
+                "C14.one_encode_per_call": z3.BoolVal(out.state.ghost.get("encoded", ()) == (me.oid,)),
+                "C14.the_document_object_is_not_written": z3.BoolVal(out.state.obj(me).fields == {})}
+
+
+class EngineEncodeDocument(Contract):
+    """RTFEncodingEngine.encode_document(document) = self._encoder.encode(document), unchanged."""
+    target = "encoding/engine.py::RTFEncodingEngine.encode_document"
+    serves = ["C14", "C15"]
+    models = [StrModel()]
+
+    def setup(self, c):
+        enc = c.alloc(RecObj("UnifiedRTFEncoder", {}, pyclass=c.cls("rtflite.encoding.unified_encoder", "UnifiedRTFEncoder"), fresh=False))
+        c.bind("self", c.alloc(RecObj("RTFEncodingEngine", {"_encoder": enc}, pyclass=c.cls("rtflite.encoding.engine", "RTFEncodingEngine"), fresh=False)))
+        doc = c.alloc(RecObj("RTFDocument", {}, fresh=False, origin="CALLER"))
+        c.bind("document", doc)
+        c.v.update(doc=doc, enc=enc)
+        c.ghost("calls", ())
+        self._v = c.v
+
+    @property
+    def summaries(self):
+        def encode(I, st, args, kwargs, node):
+            doc = args[1]
+            st.ghost["calls"] = tuple(st.ghost.get("calls", ())) + ((args[0].oid if isinstance(args[0], Ref) else None, doc.oid if isinstance(doc, Ref) else None),)
+            return ENCODED(z3.IntVal(doc.oid if isinstance(doc, Ref) else -1))
+        return {"UnifiedRTFEncoder.encode": encode}
+
+    def ensures(self, c, out):
+        return {"C14.the_engines_own_encoder_encodes_this_document_once": z3.BoolVal(out.state.ghost.get("calls", ()) == ((c.v["enc"].oid, c.v["doc"].oid),)),
+                "returns_the_encoders_string": to_z3(norm_str(out.value)) == ENCODED(z3.IntVal(c.v["doc"].oid))}
+
+
+from pyvc.values import to_z3
+ENTRY_UNITS = [RtfEncodeEntry(), EngineEncodeDocument()]
